@@ -11,7 +11,7 @@ def f(n): return t.dump() if n == 0 else f(n-1)
 try: f(10); print('D08g ok')
 except Exception as e: print('D08g', type(e).__name__)
 print('D08g-pieces', k(lambda: torf.Torrent.read_stream(b'd4:infod6:pieces'+b'l'*600+b'e'*600+b'ee', validate=False).dump(validate=False)))
-# D08i
+# D08i (fixed in /repo 3420ff7: all three print MetainfoError now)
 print('D08i', k(lambda: torf.Torrent.read_stream(b'd4:infod6:lengthi5e4:name1:a12:piece lengthi16384e6:pieces'+b'l'*2000+b'e'*2000+b'ee')))
 t2 = torf.Torrent.read_stream(b'd4:infod6:lengthi5e4:name1:a12:piece lengthi16384e6:pieces'+b'l'*2000+b'e'*2000+b'ee', validate=False)
 print('D08i validate', k(t2.validate), 'dump', k(t2.dump))
